@@ -43,6 +43,13 @@ def run_until_accuracy(s, case):
                         break
                     s.DoGlobalIteration(case.get('batch', 16))
             return H.run_script(s, [('solve',)])
+        if mode == 'fail-resume':      # one evaluation fails (also by an interrupt); Solve returns; the user calls Solve again
+            try:
+                H.run_script(s, [('solve',)])
+            except BaseException as e:  # noqa
+                if isinstance(e, KeyboardInterrupt) and case.get('exc') != 'KeyboardInterrupt':
+                    raise
+            return H.run_script(s, [('solve',)])
         if mode == 'refine-early':
             return H.run_script(s, [('iter', case.get('early', 6)), ('refine', 30), ('solve',)])
         return H.run_script(s, [('solve',)])
@@ -122,8 +129,11 @@ def flat_case(rng):
     else:
         r = round(rng.uniform(2.0, 2.6), 2)
     case = {'n': 1, 'lo': lo, 'hi': hi, 'objective': desc, 'r': r, 'eps': rng.choice([2e-3, 5e-4, 1e-4, 5e-5, 2e-5]), 'iters': 200000, 'density': None}
-    if rng.random() < 0.35:
+    q = rng.random()
+    if q < 0.3:
         case.update({'mode': 'batches', 'batch': rng.choice([16, 40, 50]), 'eps': rng.choice([2e-3, 5e-4])})
+    elif q < 0.6:      # a failed evaluation early in a flat run (M stays at its floor: nothing but the failure path itself can restore the interval)
+        case.update({'mode': 'fail-resume', 'fail_at': rng.randint(2, 8), 'exc': rng.choice(['RuntimeError', 'KeyboardInterrupt', 'SystemExit']), 'eps': rng.choice([2e-3, 5e-4, 1e-4])})
     return case, max(desc['slopes'])
 
 
@@ -161,9 +171,11 @@ def cone_case(rng):
     eps = rng.choice([0.02, 0.01, 0.005]) if n < 3 else rng.choice([0.05, 0.03])
     case = {'n': n, 'lo': lo, 'hi': hi, 'objective': desc, 'r': r, 'eps': eps, 'iters': 4000 if n < 3 else 3000, 'density': None}
     k = rng.random()
-    if k < 0.3:
+    if k < 0.2:
+        case.update({'mode': 'fail-resume', 'fail_at': rng.randint(3, 9), 'exc': rng.choice(['RuntimeError', 'KeyboardInterrupt', 'SystemExit', 'ValueError'])})
+    elif k < 0.4:
         case.update({'mode': 'batches', 'batch': rng.choice([8, 16, 40, 50])})
-    elif k < 0.45:
+    elif k < 0.55:
         case.update({'mode': 'refine-early', 'early': rng.choice([3, 6, 12])})
     return case, L0, fmin
 
